@@ -2,6 +2,7 @@
 threshold."""
 import gzip
 import json
+import math
 import os
 import shutil
 
@@ -101,9 +102,15 @@ def make_records(case):
             # pooled, the planted rate is untouched
             R = case.get('runs', 1)
             assert N % R == 0
-            for a in range(0, N, N // R):
+            for ri, a in enumerate(range(0, N, N // R)):
                 b = a + N // R
-                recs.append({'inputs': inputs_for(d, p),
+                # the runs of a point may write its rate a few ulps apart (a
+                # typed literal, the value a range computes)
+                p_written = p
+                if case.get('ulp'):
+                    for _ in range(ri % 3):
+                        p_written = math.nextafter(p_written, 1.0)
+                recs.append({'inputs': inputs_for(d, p_written),
                              'results': {'n_runs': b - a, 'wall_time': 1.0,
                                          'effective_error': eff[a:b], 'success': suc[a:b],
                                          'codespace': cs[a:b]}})
@@ -286,7 +293,7 @@ def cases(draw):
             trims = [[t[0], 0] for t in trims]
     return {'params': [p_th, nu, A, B_raw, C], 'distances': dist, 'rates': rates,
             'trims': trims, 'N': N, 'layouts': layouts, 'shape': shape,
-            'runs': draw(st.sampled_from([1, 1, 2, 4])),
+            'runs': draw(st.sampled_from([1, 1, 2, 4])), 'ulp': draw(st.booleans()),
             'oocs': ([0.0] * len(dist) if draw(st.booleans()) else
                      [draw(st.sampled_from([0.0, 0.1, 0.2, 0.3, 0.5])) for _ in dist])}
 
